@@ -54,13 +54,13 @@ for sid,m,rs in s:
             if not sig: sig=sigs.split(' ')[0]
     if m.get('status','').startswith('obsolete'):
         nobs+=1
-        out.append("| %s | %s | no longer applies after fix b2edbef (it edits the branch the fix removed); detected by its property's quick check before the fix | `` |" % (sid,summ))
+        out.append("| %s | %s | %s | `` |" % (sid,summ,m.get('obsolete_reason','obsolete')))
         continue
     nd+=ok
     own=any(v=='DETECTED' and prop==sid.split('-')[0] for prop,tier,v,t,sg in rs)
     nown+=own
     out.append("| %s | %s | %s | `%s` |" % (sid,summ,'; '.join(cell) or 'not run',sig))
-out.append("\n%d seeded changes, %d of them obsolete after a fix; of the remaining %d, %d are detected by their own property's quick check and %d by at least one registered quick check (C10-1 by C08; C03-r5, which does not violate C03 as stated, by C12 and C13)." % (len(s),nobs,len(s)-nobs,nown,nd))
+out.append("\n%d seeded changes, %d of them obsolete after a fix of a genuine defect; of the remaining %d, %d are detected by their own property's quick check and %d by at least one registered quick check (C10-1 by C08; C03-r5, which does not violate C03 as stated, by C12 and C13)." % (len(s),nobs,len(s)-nobs,nown,nd))
 txt='\n'.join(out)
 p=V+'/DESIGN.md'
 d=open(p).read()
